@@ -22,8 +22,9 @@ Record oparams := mkOP {
 (* ---------------------------------------------------------------- Tally classification *)
 
 (** isInsideSpread: median - spread <= rate <= median + spread *)
+Definition in_band (m s : Z) (v : pvote) : bool := (m - s <=? pv_rate v) && (pv_rate v <=? m + s).
 Definition inside_b (band : Z) (all : list pvote) (m : Z) (v : pvote) : bool :=
-  let s := reward_spread band m all in (m - s <=? pv_rate v) && (pv_rate v <=? m + s).
+  in_band m (reward_spread band m all) v.
 (** isAbstainVote: rate not positive *)
 Definition abstain_b (v : pvote) : bool := negb (0 <? pv_rate v).
 
@@ -40,21 +41,24 @@ Fixpoint pf_get (id : nat) (m : perfmap) : Z * Z :=
   | (i, x) :: r => if Nat.eqb i id then x else pf_get id r
   end.
 
-(** the loop of Tally over the (sorted) votes of one pair; [missed] = missedValidators *)
-Fixpoint tally_loop (band : Z) (all : list pvote) (m : Z) (vs : list pvote) (missed : list nat) (pm : perfmap) : perfmap :=
+(** the loop of Tally over the (sorted) votes of one pair; [m] median, [s] reward spread,
+    [missed] = missedValidators *)
+Fixpoint tally_loop (m s : Z) (vs : list pvote) (missed : list nat) (pm : perfmap) : perfmap :=
   match vs with
   | [] => pm
   | v :: r =>
-      if inside_b band all m v then
-        tally_loop band all m r missed (pf_upd (pv_voter v) (fun x => (fst x + pv_power v, snd x)) pm)
+      if in_band m s v then
+        tally_loop m s r missed (pf_upd (pv_voter v) (fun x => (fst x + pv_power v, snd x)) pm)
       else if negb (abstain_b v) then
-        if memb (pv_voter v) missed then tally_loop band all m r missed pm
-        else tally_loop band all m r (pv_voter v :: missed) (pf_upd (pv_voter v) (fun x => (fst x, snd x + 1)) pm)
-      else tally_loop band all m r missed pm
+        if memb (pv_voter v) missed then tally_loop m s r missed pm
+        else tally_loop m s r (pv_voter v :: missed) (pf_upd (pv_voter v) (fun x => (fst x, snd x + 1)) pm)
+      else tally_loop m s r missed pm
   end.
 
 Definition tally_pair (band : Z) (vs : list pvote) (pm : perfmap) : perfmap :=
-  tally_loop band vs (wmedian true vs) (sort_votes vs) [] pm.
+  let m := wmedian true vs in
+  let s := reward_spread band m vs in
+  tally_loop m s (sort_votes vs) [] pm.
 
 Definition init_perfs (st : state) : perfmap := map (fun x => (fst x, (0, 0))) (eligible st).
 
